@@ -1264,7 +1264,7 @@ impl ValueTable {
 			d.file_filled = header.filled();
 			d.file_last_removed = header.last_removed();
 			let capacity = self.file.capacity.load(Ordering::Relaxed);
-			let n = std::cmp::min(self.entry_size as usize, 64);
+			let n = self.entry_size as usize;
 			for index in 1..std::cmp::min(d.file_filled, capacity) {
 				let mut buf = vec![0u8; n];
 				self.file.read_at(&mut buf, index * self.entry_size as u64)?;
